@@ -428,6 +428,8 @@ class Env:
         self.comp_hooks: list[Callable[["Env", ast.AST], Any]] = []  # comprehension models
         self.assume_hooks: list[Callable[["Env", ast.Call, bool], bool]] = []  # branch conditions that are helper calls
         self.bool_hooks: list[Callable[["Env", ast.BoolOp], Any]] = []  # value semantics of 'a or b' over abstract objects
+        # multi-path helpers: {'script': {site: index of the returning path to follow}, 'log': {site: number of returning paths}}; shared by copies
+        self.choices: Optional[dict] = None
 
     def copy(self) -> "Env":
         e = Env(self.facts.copy(), self.int_attrs)
@@ -438,6 +440,7 @@ class Env:
         e.comp_hooks = list(self.comp_hooks)
         e.assume_hooks = list(self.assume_hooks)
         e.bool_hooks = list(self.bool_hooks)
+        e.choices = self.choices
         return e
 
     def symbol(self, path: str, integer: bool = True) -> Lin:
